@@ -12,3 +12,15 @@ claim(
     'Static only: the regex sources are parsed with re._parser, never compiled or run.',
     'regex ambiguity analysis (EDA via pair-graph SCC over look-ahead-exact eps-NFA) + scanner-loop path rule',
 )
+
+claim(
+    'C02',
+    'Decided (necessary conditions, by structural rules): the interval beliefs about the candidate index in '
+    'match_nth agree (all lower bounds equal, all upper bounds equal, as linear forms over len(parent)); the token '
+    'grammar NTH, the splitter RE_NTH and the nth token groups are language-equivalent; the keyword pseudo-classes '
+    'and even/odd build exactly the An+B records they name; the -of-type sibling predicate is name AND namespace '
+    'equality and every SelectorNth field is read by the matcher. Not decided: the An+B arithmetic over all '
+    'integers and sibling sequences (needs a loop-invariant proof, another technique family).',
+    'Breaking any decided clause breaks the stated behaviour; holding them does not prove it.',
+    'AST consistency rule over linear bound forms + regex language equivalence + table agreement',
+)
